@@ -216,6 +216,8 @@ def chk_c07(w):
             sid, gen, a = int(k[1]), int(k[2]), k[3]
             acc.violated(ex, 'C07/readiness_is_asked_of_the_current_instance', gen != gen_now[sid], hist=w.hist,
                          what='poll_ready on generation %d of service %d, current is %d' % (gen, sid, gen_now[sid]))
+            acc.violated(ex, 'C07/failed_service_is_recreated_before_further_use', sid in failed, hist=w.hist,
+                         what='service %d reported a readiness error earlier and is polled again without having been re-created' % sid)
             last[sid] = a
             if a == 'e': failed.add(sid)
         elif k[0] == 'create':
@@ -232,6 +234,8 @@ def chk_c07(w):
                          what='service %d called with connection %d while services %s had not answered Ready(Ok) since the previous call' % (sid, conn, notready))
             acc.violated(ex, 'C07/call_goes_to_the_current_instance', gen != gen_now[sid], hist=w.hist,
                          what='call on generation %d of service %d, current is %d' % (gen, sid, gen_now[sid]))
+            acc.violated(ex, 'C07/failed_service_is_recreated_before_further_use', bool(failed), hist=w.hist,
+                         what='a connection is served while service(s) %s reported a readiness error and were not re-created' % sorted(failed))
             called.append((sid, conn)); last = {}
             acc.wit['c07_calls'] += 1
     # C01 worker side: the k-th call carries the k-th queued connection, on services[token]
